@@ -146,4 +146,14 @@ def handle (st : DState) (req : Sexp) : DState × Sexp :=
       | .error .indexError => .list [.atom "err", .atom "IndexError"])
   | _ => (st, bad)
 
-def main : IO Unit := runDriver handle {}
+/-- Carriage returns travel as U+E00D: the harness reads answers line by line
+    with universal newlines. -/
+partial def mapAtoms (f : String → String) : Sexp → Sexp
+  | .atom s => .atom (f s)
+  | .list xs => .list (xs.map (mapAtoms f))
+
+def decCR (s : String) : String := s.map (fun c => if c = '\uE00D' then '\r' else c)
+def encCR (s : String) : String := s.map (fun c => if c = '\r' then '\uE00D' else c)
+
+def main : IO Unit :=
+  runDriver (fun st req => let (st', a) := handle st (mapAtoms decCR req); (st', mapAtoms encCR a)) {}
